@@ -1,0 +1,21 @@
+//go:build verif
+
+package db
+
+// Contracts for property C17 (replication checkpoints). Comment-only; read by /verif/engine.
+
+//@ props C17
+
+//@ func Checkpointer._calculateSafeExpectedSeqsIdx
+//@   safety on
+//@   requires c != nil
+//@   modifies elems(c.expectedSeqs)
+//@   ensures[header]  c.expectedSeqs == old(c.expectedSeqs)
+//@   ensures[range]   -1 <= result && result < len(c.expectedSeqs)
+//@   ensures[prefix]  forall k int :: {c.expectedSeqs[k]} 0 <= k && k <= result ==> c.expectedSeqs[k] in c.processedSeqs
+//@   ensures[stop]    result + 1 < len(c.expectedSeqs) ==> !(c.expectedSeqs[result+1] in c.processedSeqs)
+//@   ensures[sorted]  forall i int, j int :: {c.expectedSeqs[i], c.expectedSeqs[j]} 0 <= i && i < j && j < len(c.expectedSeqs) ==> !c.expectedSeqs[j].Before(c.expectedSeqs[i])
+//@   ensures[kept]    forall k int :: {old(c.expectedSeqs[k])} 0 <= k && k < len(c.expectedSeqs) ==> elem(c.expectedSeqs, old(c.expectedSeqs[k]))
+//@   ensures[nonew]   forall k int :: {c.expectedSeqs[k]} 0 <= k && k < len(c.expectedSeqs) ==> old(elem(c.expectedSeqs, now(c.expectedSeqs[k])))
+//@   loop 1 invariant[idx]    safeIdx == #index && -1 <= #index && #index < len(c.expectedSeqs)
+//@   loop 1 invariant[prefix] forall k int :: {c.expectedSeqs[k]} 0 <= k && k <= safeIdx ==> c.expectedSeqs[k] in c.processedSeqs
